@@ -155,7 +155,32 @@ let parse_op (toks : string list) : op =
   | "sleep_ms" :: _ -> OSleep
   | _ -> OUnknown
 
+(* --decode <hexfile>: run the specification decoder (HeaderSpec.decode, written from the
+   format grammar only) on a file image and print its findings in canonical text *)
+let decode_mode path =
+  let ic = open_in path in
+  let hex = String.trim (input_line ic) in
+  close_in ic;
+  let bytes = bytes_of_hex hex in
+  match decode bytes with
+  | None -> print_endline "DECODE none"
+  | Some d ->
+      let h = d.dc_hdr in
+      Printf.printf "H %s %s %s %s %s\n" (sz h.h_format) (sz h.h_numrecs) (sz d.dc_len)
+        (if strict_valid d then "strict" else "NOTSTRICT")
+        (if layout_ok h d.dc_len then "layout" else "NOLAYOUT");
+      List.iter (fun dd -> Printf.printf "D %s %s\n" (hexname dd.d_name) (sz dd.d_size)) h.h_dims;
+      let pa owner a = Printf.printf "A %d %s %s %s %s\n" owner (hexname a.a_name) (sz a.a_type) (sz a.a_nelems)
+                         (hex_of_bytes a.a_data) in
+      List.iter (pa (-1)) h.h_gatts;
+      List.iteri (fun i dv ->
+        let v = dv.dv_var in
+        Printf.printf "V %s %s %d%s %s %s\n" (hexname v.v_name) (sz v.v_type) (List.length v.v_dimids)
+          (String.concat "" (List.map (fun x -> " " ^ sz x) v.v_dimids)) (sz dv.dv_vsize) (sz v.v_begin);
+        List.iter (pa i) v.v_atts) d.dc_vars
+
 let () =
+  if Array.length Sys.argv > 2 && Sys.argv.(1) = "--decode" then (decode_mode Sys.argv.(2); exit 0);
   let file = Sys.argv.(1) in
   let ic = open_in file in
   let lines = ref [] in
